@@ -4,7 +4,7 @@ from ..defuse import du_of, walk, peel, callee_name, fmt
 from ..conds import lits_of, success_dominates
 from ..callgraph import cg_of
 from ..roles import roles_of
-from ..common import arg_term, contains_call, call_named, field_path, ADAPTER_TRAIT, is_adapter_impl, MUTATORS
+from ..common import arg_term, contains_call, call_named, field_path, ADAPTER_TRAIT, is_adapter_impl, MUTATORS, assigns_of_return
 
 TEXT = ("Ordering (must-precede / dominance) rules that replace crash-point enumeration under the property's own "
         "assumption that a single item write is atomic. O1: in commit exactly two call sites reach a raw storage "
@@ -163,6 +163,17 @@ def run(facts, res):
             continue
         byp, oks = bypassing_returns(w, anchors, "Ok")
         n6 += len(oks)
+        # ... and through its *success*: an `Ok` built by the writer itself (not the adapter call's own result handed on) lies behind the
+        # success edge of the write. "The backend reported a failure but something is stored under the key, so the write is done" turns
+        # a torn write into a successful commit whose block nobody can load.
+        for ob_, st_ in assigns_of_return(w, "Ok"):
+            if any(a == ob_ for a in anchors):
+                continue
+            behind = [a for a in anchors if cfg_of(w).reaches(a, ob_)]
+            if behind and not all(success_dominates(w, a, ob_, facts) for a in behind):
+                res.violation("O6", "%s|success-after-failed-write" % w.path,
+                              "%s can answer Ok on a path where its adapter write returned an error (the Ok is not behind the write's success edge)" % w.path,
+                              w.loc(st_.line))
         seen = set()
         for a, o in byp:
             if o in seen:
